@@ -91,6 +91,8 @@ def parse_terse(out):
 
 def fq_name(h):
     """fully qualified harness name (Kani's --harness matches substrings unless --exact is given)"""
+    if h.get("fq"):
+        return h["fq"]
     if h.get("crate") == "ext":
         return "harnesses::" + h["name"]
     mod = h["file"][:-3].replace("__", "::")
